@@ -88,6 +88,23 @@ def c13b(prog, R):
     want = "((PEEKED.key.value_type == ValueType::Value) && (HEAD.key.value_type == ValueType::WeakTombstone))"
     r.check(d == want, "%s|drop_weak_tombstone := peeked is Value && head is WeakTombstone" % sm.path,
             "annihilation condition changed to `%s`" % d, "", str(d))
-    r.check(sm.before_has_call(s, "drain_key"), "%s|drain_key precedes the annihilation" % sm.path,
-            "the weak tombstone is dropped without draining the value beneath it (the value would resurface)", "")
-    r.floor(3)
+    # only the pair goes: the value beneath is consumed (one `self.inner.next()`), reported to the GC callback, and the
+    # older tail is NOT drained on this path (an older weak tombstone may still shadow a value in a lower level - F9)
+    takes = 0
+    for b in s.before:
+        from rules.stream_rules import unconditional_nodes
+        if b.get("k") != "let":
+            continue
+        for m in unconditional_nodes(b):
+            if m.get("k") == "mcall" and m.get("m") == "next" and hir_expr_str(m["r"]) == "self.inner":
+                takes += 1
+    # one take is the head item itself, the second one is the value beneath the weak tombstone
+    took = takes >= 2 or sm.before_has_call(s, "drain_key")
+    r.check(took, "%s|the value beneath is consumed together with the weak tombstone" % sm.path,
+            "the weak tombstone is dropped without removing the value beneath it (the value would resurface)", "")
+    r.check(not sm.before_has_call(s, "drain_key"), "%s|the older tail of the key is not drained by the annihilation" % sm.path,
+            "weak-tombstone annihilation drains every older version of the key as well: an older weak tombstone that still shadows "
+            "a value in a lower level disappears and that value comes back (remove() would keep the key deleted)", "")
+    r.check(sm.before_has_call(s, "on_dropped", "&dropped"), "%s|the consumed value is reported to the GC callback" % sm.path,
+            "the value dropped by the annihilation is not reported to the drop callback", "")
+    r.floor(5)
